@@ -116,6 +116,38 @@ def py_reply(data):
         return 'exc ' + repr(e)
 
 
+def prescan(data):
+    """Largest block (size before the final run-length decoding) among the
+    blocks the Python parser gets through, without inverse BWT: the guard
+    that keeps decompression bombs away from the list-based Lean models."""
+    big = 0
+    try:
+        r = B.BitReader(data)
+        first = True
+        while True:
+            rest = data[r.pos // 8:]
+            if len(rest) < 4 or rest[:3] != b'BZh' or \
+                    not (0x31 <= rest[3] <= 0x39):
+                break
+            r.get(24)
+            level = r.get(8) - 0x30
+            while True:
+                m = r.get(48)
+                if m == B.BLOCK_MAGIC:
+                    _, _, info = B.read_block(r, level, False)
+                    big = max(big, info['nblock'])
+                elif m == B.EOS_MAGIC:
+                    r.get(32)
+                    break
+                else:
+                    return big
+            r.pos = (r.pos + 7) // 8 * 8
+            first = False
+    except (B.Reject, IndexError, ValueError, KeyError):
+        pass
+    return big
+
+
 def corner_files(rng):
     """Two small files whose lengths differ mod 4 (so that, with the variants
     below, every padding length 0..3 meets every kind of tail)."""
@@ -205,13 +237,13 @@ def run(ck):
             seen.add(k)
             uniq.append(it)
     items = uniq
-    # the real program first: it also guards the list-based models against
-    # decompression bombs among the rejected corpus files
+    with concurrent.futures.ProcessPoolExecutor(max_workers=NPROC) as ex:
+        bigs = list(ex.map(prescan, [d for _, d, _ in items], chunksize=16))
+    skipped = [it[0] for it, b in zip(items, bigs) if b > MAXOUT]
+    items = [it for it, b in zip(items, bigs) if b <= MAXOUT]
+    summ['skipped_big_blocks'] = skipped
     res = proc.run_many([dict(exe=exe, args=['-d', '-n2'], data=d, timeout=60)
                          for _, d, _ in items])
-    keep = [i for i, r in enumerate(res) if len(r.out) <= MAXOUT]
-    items = [items[i] for i in keep]
-    res = [res[i] for i in keep]
     real = [real_reply(r) for r in res]
     ck.log('w22 expand: %d files, real program done' % len(items))
     model = par_batch(drv, ['expandfile ' + hx(d) for _, d, _ in items])
